@@ -291,6 +291,24 @@ class C10(PipelineProp):
                         return None
                 return "tagged-duplicates-across-haplotypes"
             return None
+        mh = re.match(r"assembly .*: unlocs of (\S+) are numbered (\[[\d, ]*\]), not 1\.\.\d+$", why or "")
+        if mh:
+            # unlocs are numbered per Pretext scaffold BEFORE the overhang resolution; an Unloc piece that
+            # the resolution then empties leaves a hole (known finding).  Recognised by: the numbers written
+            # are a proper subset of 1..M, M = the Unloc pieces of the Pretext scaffold these unlocs come from
+            import ast
+
+            chrom, nums = mh.group(1), ast.literal_eval(mh.group(2))
+            origs = {s_["orig"] for a in obs["asms"] for s_ in a["scaffolds"]
+                     if re.fullmatch(re.escape(chrom) + r"_unloc_\d+", s_["name"])}
+            if len(origs) != 1:
+                return None
+            orig = origs.pop()
+            M = sum(1 for sc in case["pretext"]["scaffolds"] if sc["name"] == orig for r in sc["rows"]
+                    if r[0] == "F" and "Unloc" in r[5] and "Haplotig" not in r[5] and "FalseDuplicate" not in r[5])
+            if nums and len(set(nums)) == len(nums) and set(nums) < set(range(1, M + 1)):
+                return "unloc-number-hole-after-emptied-unloc"
+            return None
         m = re.match(r"chromosome list: (\S+)_unloc_\d+ localised=yes", why or "")
         if not m:
             return None
